@@ -53,6 +53,8 @@ class RunResult:
         self.harness_error = None
         self.wall = 0.0
         self.engines = []
+        self.hb_checks = 0       # plain accesses checked by the happens-before monitor (fiber engines)
+        self.hb_syncs = 0
 
 
 def _sanitize(s):
@@ -107,6 +109,15 @@ def run_family(res, prop, family, variant, cases, seed, tier, cells=None, extra_
         return
     eng = {"family": family, "variant": variant, "mode": summary["mode"], "sanitizer": summary["sanitizer"],
            "cases": 0, "wall_s": round(wall, 2), "complete": summary["complete"]}
+    if summary["mode"] == "fiber":
+        # what the happens-before monitor saw on these schedules
+        eng["hb_sync_events"] = summary.get("hb_sync_events", 0)
+        eng["hb_plain_accesses_checked"] = summary.get("hb_plain_accesses_checked", 0)
+        eng["hb_cases_given_up"] = summary.get("hb_cases_given_up", 0)
+        res.hb_checks += eng["hb_plain_accesses_checked"]
+        res.hb_syncs += eng["hb_sync_events"]
+    else:
+        eng["tsan_reports"] = summary.get("tsan_reports", 0)
     for c in summary["cells"]:
         res.evaluations += c["cases"]
         res.distinct += c["distinct"]
@@ -224,6 +235,7 @@ def finish(prop, tier, seed, level, res, rule, assumptions, min_distinct=2, extr
         "per_cell": res.cells,
         "library_assertion_sites_seen": res.sites,
         "inconclusive_cases": res.inconclusive,
+        "happens_before_monitor": {"sync_events_observed": res.hb_syncs, "plain_accesses_checked": res.hb_checks},
         "known_findings_reproduced": sorted(set(known_hit)),
         "other_property_observations": [f.key for f in res.other],
         "notes": res.notes,
